@@ -71,6 +71,49 @@ def path_conditions(src, pos):
     return [c for _, c in stack if c is not None]
 
 
+def close_checks(ev):
+    """cfun_channel_close (and the file-static helpers it calls that schedule fibers, e.g. a shared drain loop): EVERY
+    janet_schedule of a pending entry `X` is guarded by the generation test `X.sched_id == X.fiber->sched_id` — as a conjunct of an
+    enclosing `if (...) {` condition, or as an early `if (X.sched_id != X.fiber->sched_id) continue;` before it in the same loop
+    body.  Structure, not text position: how the two drain loops are laid out (inline, one helper, two helpers) does not matter."""
+    texts = [("cfun_channel_close", sq(body(ev, "cfun_channel_close")))]
+    seen = {"cfun_channel_close"}
+    k = 0
+    while k < len(texts):
+        for callee in sorted(set(re.findall(r"\b([A-Za-z_]\w*)\(", texts[k][1]))):
+            if callee in seen or callee.startswith(("janet_schedule", "janet_cancel", "janet_ev_post_event")):
+                continue
+            seen.add(callee)
+            try:
+                b = csrc.func_body(ev, callee)
+            except ExtractError:
+                continue
+            if "janet_schedule(" in b and re.search(r"(?m)^static\b[^;{}()]*\b%s\s*\(" % re.escape(callee), ev):
+                texts.append((callee, sq(b)))
+        k += 1
+    nsites, ok = 0, True
+    for name, t in texts:
+        for m in re.finditer(r"janet_schedule\((\w+)(\.|->)fiber,", t):
+            nsites += 1
+            v, acc = re.escape(m.group(1)), re.escape(m.group(2))
+            eq = r"(?:%s%ssched_id==%s%sfiber->sched_id|%s%sfiber->sched_id==%s%ssched_id)" % (v, acc, v, acc, v, acc, v, acc)
+            ne = eq.replace("==", "!=")
+            conds = path_conditions(t, m.start())
+            pos = [cd for cd in conds if not cd.startswith("!(") and "||" not in cd]
+            if not any("janet_fiber_can_resume(%s%sfiber)" % (m.group(1), m.group(2)) in cd for cd in pos) and \
+                    not re.search(r"if\(!janet_fiber_can_resume\(%s%sfiber\)\)continue;" % (v, acc), t[:m.start()]):
+                raise ExtractError("%s: janet_schedule of a pending entry without a janet_fiber_can_resume test" % name)
+            guarded = any(re.search(r"(?:^|&&)\(?%s\)?(?:&&|$)" % eq, cd) for cd in pos)
+            if not guarded:
+                # early continue in the enclosing loop body
+                lo = t.rfind("while(", 0, m.start())
+                guarded = lo >= 0 and bool(re.search(r"if\(%s\)continue;" % ne, t[lo:m.start()]))
+            ok = ok and guarded
+    if nsites < 1 or not all(q in "".join(t for _, t in texts) for q in ("channel->write_pending", "channel->read_pending")):
+        raise ExtractError("cfun_channel_close: draining of write_pending / read_pending with janet_schedule not recognised (%d calls)" % nsites)
+    return ok
+
+
 # Every place that can make a suspended fiber runnable, by enclosing function.  A janet_schedule / janet_cancel call in a function
 # that is neither a listener callback (signature `(JanetFiber *fiber, JanetAsyncEvent event)`: reached only through
 # `stream->read_fiber / write_fiber` of a fiber that still listens) nor named here is a wake-up source the model does not know.
@@ -161,15 +204,7 @@ def extract(tree):
     if "janet_q_pop(&channel->write_pending,&writer,sizeof(writer))" not in pop:
         raise ExtractError("janet_channel_pop_with_lock: pop of write_pending not recognised")
     c["popSkipsStale"] = bool(re.search(r"do\{(\w+)=janet_q_pop\(&channel->write_pending,&writer,sizeof\(writer\)\);\}while\(!\1&&\(writer\.sched_id!=writer\.fiber->sched_id\)\);", pop))
-    close = sq(body(ev, "cfun_channel_close"))
-    if close.count("janet_fiber_can_resume(") != 2:
-        raise ExtractError("cfun_channel_close: expected two janet_fiber_can_resume tests")
-    cw = re.search(r"if\(([^{}]*?janet_fiber_can_resume\(writer\.fiber\)[^{}]*?)\)\{", close)
-    cr = re.search(r"if\(([^{}]*?janet_fiber_can_resume\(reader\.fiber\)[^{}]*?)\)\{", close)
-    if not cw or not cr:
-        raise ExtractError("cfun_channel_close: resume tests not recognised")
-    c["closeChecks"] = ("writer.sched_id==writer.fiber->sched_id&&" in cw.group(1) or "&&writer.sched_id==writer.fiber->sched_id" in cw.group(1)) and \
-                       ("reader.sched_id==reader.fiber->sched_id&&" in cr.group(1) or "&&reader.sched_id==reader.fiber->sched_id" in cr.group(1))
+    c["closeChecks"] = close_checks(ev)
     pcb = sq(body(osc, "janet_proc_wait_cb"))
     if "janet_schedule(args.fiber,janet_wrap_integer(status))" not in pcb:
         raise ExtractError("janet_proc_wait_cb: schedule not recognised")
